@@ -373,7 +373,7 @@ structure Rel1 (sel : SuiteSel) (v : Version) (k0 : AppKeys) (s : St σ) (gc gs 
 
 /-- what RFC 9000/9001 demand of a sequence of 1-RTT packets in capture order: key generations conformant
     (`KeyUpdateConformant`, inlined), each packet number truncated within the window of the largest number captured
-    so far in its direction (any gaps, any of the lengths 1–4 the window admits), frames well-formed -/
+    so far in its direction (any gaps, any of the lengths 1–4 the window allows), frames well-formed -/
 def SendOk1 : (gc gs lc ls : Nat) → List SPkt → Prop
   | _, _, _, _, [] => True
   | gc, gs, lc, ls, x :: rest =>
@@ -450,7 +450,7 @@ theorem step_one_rtt (L : SealLaws P.prims) (sel : SuiteSel) (v : Version) (k0 :
 
 /-- With application keys installed (`Rel1`), for EVERY sequence of 1-RTT packets an RFC-conformant pair of
     endpoints can produce — any key-update history by either side, any interleaving of the directions, packet
-    numbers with any gaps truncated to any length the RFC window admits, any well-formed frame lists — no packet
+    numbers with any gaps truncated to any length the RFC window allows, any well-formed frame lists — no packet
     raises, and the frames appended to `output_buffer` are exactly the senders' STREAM and CRYPTO frames, in capture
     order, each with its packet's timestamp and direction. Composition of the epoch theorem, C16's window theorem,
     the AEAD law and C17's `frames_roundtrip`. -/
@@ -601,6 +601,45 @@ theorem handshake_levels_exact (L : SealLaws P.prims) (v : Version) (sel : Suite
     obtain ⟨i1, i2, i3⟩ := ih _ _ _ a4 hrest
     simp only [List.map_cons, runPkts, caughtList, escapes, a1, a2, List.flatMap_cons]
     exact ⟨by rw [i1, a3, List.append_assoc], by rw [i2], i3⟩
+
+/-! ### a quirk the model mirrors (not RFC behaviour) -/
+
+/-- `check_key_epoch` runs BEFORE the AEAD check: a damaged or forged client 1-RTT packet whose key-phase value
+    differs from the last one seen advances `epoch_client` for good although it is rejected and exports nothing
+    (RFC 9001 §6.3 lets a receiver update its keys only after the packet was successfully unprotected). Every later
+    genuine packet of that direction is then tried with the wrong generation. Replayed on the real code by
+    `harness/q2b_session.py` (`flipped key phase on corrupted packets`). -/
+theorem damaged_key_phase_advances_epoch (hbad : AeadRejectsAll P) (s : St σ) (p : Pkt) (hh : p.htype = .short)
+    (ht : p.ptype = .rtt1) (hc : p.isServer = false) (hk : s.lastPhaseClient ≠ p.keyPhase) :
+    (stepPkt P s p).st.epochClient = s.epochClient + 1 ∧ (stepPkt P s p).st.lastPhaseClient = p.keyPhase ∧
+    (stepPkt P s p).st.out = s.out := by
+  obtain ⟨e1, _, _⟩ := step_short_rtt1 P s p ht
+  rw [e1]
+  have hf : flipEpoch s p.keyPhase false =
+      { s with epochClient := s.epochClient + 1, lastPhaseClient := p.keyPhase } := by simp [flipEpoch, hk]
+  have hfe : (flipEpoch s p.keyPhase false).epochClient = s.epochClient + 1 ∧
+      (flipEpoch s p.keyPhase false).lastPhaseClient = p.keyPhase := by rw [hf]; exact ⟨rfl, rfl⟩
+  generalize hsf : flipEpoch s p.keyPhase false = sf at hfe
+  obtain ⟨app, hx⟩ := extendGens_decApp_only P sf
+  have hsel : ∃ r, selectDecryptor P s p = ((extendGens P sf).1, r) := by
+    simp only [selectDecryptor, hh, ht, if_true, checkKeyEpoch, hc, hsf]
+    cases hcase : extendGens P sf with
+    | mk a e => cases e <;> exact ⟨_, rfl⟩
+  obtain ⟨r, hr⟩ := hsel
+  have hgoal : (decryptPacket P s p).1.epochClient = sf.epochClient ∧
+      (decryptPacket P s p).1.lastPhaseClient = sf.lastPhaseClient := by
+    have hX1 : (extendGens P sf).1.epochClient = sf.epochClient := by rw [hx]
+    have hX2 : (extendGens P sf).1.lastPhaseClient = sf.lastPhaseClient := by rw [hx]
+    unfold decryptPacket
+    rw [hr]
+    cases r with
+    | error e => exact ⟨hX1, hX2⟩
+    | ok d? =>
+      obtain ⟨s1, f1, f2⟩ := decryptRest_frame P (extendGens P sf).1 p d?
+      obtain ⟨_, _, rfl⟩ := f1
+      obtain ⟨_, _, _, _, _, _, _, _, _, _, _, _, _, h2⟩ := f2
+      exact ⟨by rw [h2]; exact hX1, by rw [h2]; exact hX2⟩
+  exact ⟨by rw [hgoal.1, hfe.1], by rw [hgoal.2, hfe.2], decryptPacket_out_rejected P hbad s p⟩
 
 /-! ### non-vacuity: the hypotheses of the theorems above are satisfiable by concrete, non-trivial inputs -/
 
